@@ -1,6 +1,8 @@
 (* C01 -- Linear 1-D interpolation returns the exact piecewise-linear interpolant. *)
 From Coq Require Import List Bool Arith ZArith QArith Qcanon.
-From NI Require Import Num Base Lookup Linear LookupProofs LinearProofs LinearExact.
+From Coq Require Import Reals.
+From Flocq Require Import Core.
+From NI Require Import Num Base Lookup Linear LookupProofs LinearProofs LinearExact FloatRound FloatLinear.
 Import ListNotations.
 Local Open Scope nat_scope.
 
@@ -59,6 +61,50 @@ Proof. exact default_axis_strict_inc. Qed.
 Print Assumptions C01_default_axis_strict_inc.
 
 (* non-vacuity *)
+(* ---------------- "up to floating-point rounding" ----------------
+   Standard model of floating-point arithmetic (each operation = exact result * (1 + d), |d| <= u) for
+   the code's expression order (y2 - y1) / (x2 - x1) * (x - x1) + y1, any u <= 2^-10: *)
+Theorem C01_float_calc_frac_standard_model :
+  forall (u d1 d2 d3 d4 d5 d6 y1 y2 x1 x2 x M : R),
+    (0 <= u -> u <= / 1024 -> x1 < x2 -> x1 <= x <= x2 -> Rabs y1 <= M -> Rabs y2 <= M ->
+    Rabs d1 <= u -> Rabs d2 <= u -> Rabs d3 <= u -> Rabs d4 <= u -> Rabs d5 <= u -> Rabs d6 <= u ->
+    Rabs (cf_pert d1 d2 d3 d4 d5 d6 y1 y2 x1 x2 x - cf_exact y1 y2 x1 x2 x) <= 15 * u * M)%R.
+Proof. exact calc_frac_error_in_bracket. Qed.
+Print Assumptions C01_float_calc_frac_standard_model.
+
+(* The model instantiated with Flocq's correctly rounded operations (round to nearest even, gradual
+   underflow; binary64 is prec = 53, emin = -1074; binary32 is prec = 24, emin = -149): for every strictly
+   increasing axis and every in-range query the lookup does not panic, picks a bracketing interval, and
+   every lane whose six intermediate results do not underflow is within 15 u = 7.5 machine epsilons of the
+   exact line times the larger bracketing value.  The harness compares f64/f32 results with 8 machine
+   epsilons, so a correct implementation with this expression order cannot trip it. *)
+Theorem C01_float_linear_close :
+  forall (prec emin : Z) (prec_gt_0_ : FLX.Prec_gt_0 prec), (11 <= prec)%Z ->
+  forall (remR powR : R -> R -> R) (ax : list R) (data : list (list R)) (x : R),
+    StrictIncF prec emin remR powR ax -> 2 <= length ax -> length data = length ax ->
+    (7 * uu prec * INR (length ax - 1) <= 1)%R -> (INR (length ax) <= IZR two64)%R ->
+    (nth 0 ax 0 <= x <= nth (length ax - 1) ax 0)%R ->
+    ((nth 0 ax 0 < x)%R -> (x < nth (length ax - 1) ax 0)%R ->
+       cf_no_underflow prec emin 0%R (INR (length ax - 1)) (nth 0 ax 0%R) (nth (length ax - 1) ax 0%R) x) ->
+    exists i v,
+      i + 1 < length ax /\ (nth i ax 0 <= x <= nth (i + 1) ax 0)%R /\
+      linear_interp (NumF prec emin remR powR) false ax data x = Ok v /\
+      length v = Nat.min (length (nth i data [])) (length (nth (i + 1) data [])) /\
+      forall j M, j < length v ->
+        (Rabs (nth j (nth i data []) 0) <= M)%R -> (Rabs (nth j (nth (i + 1) data []) 0) <= M)%R ->
+        cf_no_underflow prec emin (nth j (nth i data []) 0%R) (nth j (nth (i + 1) data []) 0%R) (nth i ax 0%R) (nth (i + 1) ax 0%R) x ->
+        (Rabs (nth j v 0 - cf_exact (nth j (nth i data []) 0) (nth j (nth (i + 1) data []) 0) (nth i ax 0) (nth (i + 1) ax 0) x)
+         <= 15 * uu prec * M)%R.
+Proof. exact linear_float_close. Qed.
+Print Assumptions C01_float_linear_close.
+
+(* the rounded model's calc_frac IS the expression analysed (definitional) *)
+Theorem C01_float_model_tie :
+  forall (prec emin : Z) ltbR lebR eqbR of_natR to_idxR remR powR (x1 y1 x2 y2 x : R),
+    calc_frac (NumFl prec emin ltbR lebR eqbR of_natR to_idxR remR powR) (x1, y1) (x2, y2) x = cf_fl prec emin y1 y2 x1 x2 x.
+Proof. exact calc_frac_NumFl. Qed.
+Print Assumptions C01_float_model_tie.
+
 Example C01_ex :
   linear_interp NumQc false [qc 0 1; qc 1 1; qc 3 1] [[qc 1 1; qc 0 1]; [qc 2 1; qc 4 1]; [qc 5 1; qc 0 1]] (qc 2 1)
   = Ok [qc 7 2; qc 2 1].
